@@ -280,7 +280,7 @@ pub fn install_panic_hook() {
             r.rec(K::PanicSeen { msg: full.clone() });
             recorded = true;
         });
-        if !recorded {
+        if !recorded && !full.starts_with("SIMPANIC") {
             eprintln!("panic outside a case: {full}");
         }
     }));
